@@ -320,6 +320,39 @@ def run_mtag(prog, rep):
     okd = any('positionToIndex' in fl.call_names(v.c[0]) for v in optv)
     if not okd:
         problems['range-branch'].append('the per-index range does not derive from the positionToIndex conversion of the collected positions')
+    # the decision to take the point fall-back is "extent row is zero (or absent)": an equality test whose operands
+    # derive from the values read from the extents array (not merely from the presence of an extents array)
+    fb = [c for c in f.calls(name='positionToIndex') if len(real_args(c)) == 4 and 'vector' not in ((real_args(c)[0].t) or '')]
+    if not fb:
+        raise AnalysisBroken('R-FLOW-MTAG: the scalar point fall-back conversion is gone')
+    for c in fb:
+        conds = []
+        child = c
+        for anc in c.ancestors():
+            if anc.k in ('for', 'while', 'rangefor'):
+                break
+            if anc.k == 'if' and anc.c[2] is not None and child is not anc.c[2]:
+                conds.append((anc.c[2], child is anc.c[3]))
+            child = anc
+        def from_extents(n):
+            for o in fl.origins(n):
+                if o[0] == 'out' and o[1] == 'getData' and o[2].c and 'extents' in o[2].c[0].src(40):
+                    return True
+            return False
+        def zero_extent_test(n, pol):
+            n = unwrap(n)
+            if n.k in ('unop', 'call') and n.get('op') == '!' and len(n.c) == 1:
+                return zero_extent_test(n.c[0], not pol)
+            if n.k == 'binop' and n.get('op') == '||' and pol:
+                return zero_extent_test(n.c[0], True) or zero_extent_test(n.c[1], True)
+            if n.k == 'binop' and n.get('op') == '&&' and not pol:
+                return zero_extent_test(n.c[0], False) or zero_extent_test(n.c[1], False)
+            if n.k in ('binop', 'call') and ((n.get('op') == '==' and pol) or (n.get('op') == '!=' and not pol)):
+                return from_extents(n)
+            return False
+        if not any(zero_extent_test(cn, pol) for (cn, pol) in conds):
+            problems['fallback-branch'].append('the point fall-back at line %d is not decided by an equality test on the extent values of row i (conditions: %s): '
+                                               'a zero extent in a multi tag that has extents would keep offset 0' % (c.get('line') or 0, '; '.join(('' if pol else 'not ') + cn.src(50) for cn, pol in conds) or 'none'))
     for k, v in problems.items():
         rule.check(not v, 'getOffsetAndCount(MultiTag)|%s' % k, rep.where(f), f.label(), '%s holds on all %d abstract paths' % (k, len(res)), '; '.join(sorted(set(v))[:3]))
     rep.extra['abstract_paths_mtag'] = len(res)
